@@ -110,6 +110,18 @@ def main(tier, seed):
     except core.CoqEvalError as e:
         run.obligation_broken("pairwise machine execution (model evaluation)", str(e))
         vs = []
+    # one run ended in a machine error while the other was still running with fewer effects: undecided within
+    # the fuel -- those pairs are run again with six times the fuel
+    again = [i for i, verd in enumerate(vs)
+             if any(t[0] == 0 and ((t[4] == 0 and t[5] >= 10) or (t[5] == 0 and t[4] >= 10)) for t in verd)]
+    if again:
+        try:
+            vs2 = diffrun.tgt_vs_tgt_guard([quads[i] for i in again], pipeline.SEEDS[:2], fuel=pipeline.FT * 6, name="c02long")
+            for i, v2 in zip(again, vs2):
+                vs[i] = v2
+            kinds["pairs_rerun_with_more_fuel"] = len(again)
+        except core.CoqEvalError as e:
+            run.obligation_broken("pairwise machine execution (longer runs)", str(e))
     nshown = 0
     for (name, src, v, base, r), verd in zip(qmeta, vs):
         run.count("evaluations")
